@@ -8,6 +8,7 @@ Model::fit / Model::fitFromVMap / ModelOptimSillsVario::fit / ModelOptimVario::f
 import sys, os, math, itertools, random
 sys.path.insert(0, os.path.dirname(__file__))
 from common import *
+if hasattr(sys, 'set_int_max_str_digits'): sys.set_int_max_str_digits(0)   # exact rationals of long Goulard replays
 
 HOOKS = ['verif_c17_trace_start', 'verif_c17_trace_stop', 'verif_c17_trace_size', 'verif_c17_trace_data', 'verif_c17_trace_overflow']
 E_RANGE, E_ANGLE, E_PARAM, E_SILL = 1, 2, 3, 4
@@ -68,7 +69,7 @@ def close_o(a, b, tol=1e-9):
     return abs(a - b) <= tol * (1 + abs(b))
 
 # ----------------------------------------------------------------------------- build
-def build_c17_harness(ctx):
+def build_c17_harness(ctx, with_hook=False):
     """the harness compiles the current text of model_auto.cpp / foxleg.cpp into itself (static functions)"""
     outd = os.path.join(BUILD, 'harness'); os.makedirs(outd, exist_ok=True)
     srcs = [os.path.join(REPO, 'src', 'Core', 'model_auto.cpp'), os.path.join(REPO, 'src', 'Core', 'foxleg.cpp'),
@@ -81,7 +82,7 @@ def build_c17_harness(ctx):
     inc = os.path.join(outd, 'C17_includes_%d.hpp' % os.getpid())
     with open(inc, 'w') as f:
         for i in sorted(incs): f.write('#include %s\n' % i)
-    extra = ['-DC17_INCLUDES="%s"' % inc, '-DC17_FOXLEG_SRC="%s"' % srcs[1], '-DC17_MODEL_AUTO_SRC="%s"' % srcs[0], '-ldl']
+    extra = ['-DC17_INCLUDES="%s"' % inc, '-DC17_FOXLEG_SRC="%s"' % srcs[1], '-DC17_MODEL_AUTO_SRC="%s"' % srcs[0], '-ldl'] + (['-DC17_COPY_WITH_HOOK'] if with_hook else [])
     exe = build_harness(ctx, 'C17', extra=extra)
     try: os.remove(inc)
     except OSError: pass
@@ -484,6 +485,86 @@ def stage_ranges(ctx, exe, runner, quick):
             ctx.violation('model-drift:st_model_auto_strmod_define:ranges', 'ranges written %s, model %s' % ([fl(g) for g in got], [fl(g) for g in exp]),
                           {'case': sx_str(c), 'impl': sx_str(ii), 'model': sx_str(mi)}, found_input=False)
 
+# ----------------------------------------------------------------------------- stage: unconstrained Goulard loop (needs the hook: eigen-pairs of every step)
+def stage_goulard(ctx, exe, runner, quick):
+    if not ctx.hook:
+        ctx.notes.append('Goulard loop replay skipped (no hook): the eigen-pairs of the inner steps cannot be harvested'); return
+    rng = ctx.rng
+    N = 60 if quick else 800
+    icases = []
+    for i in range(N):
+        nvar = rng.choice([1, 2, 2, 3]); ncova = rng.choice([1, 2, 2, 3]); npadir = rng.choice([3, 5, 8, 12])
+        nvs2 = nvar * (nvar + 1) // 2
+        hs = [Fraction(k + 1) for k in range(npadir)]
+        rngs = [Fraction(rng.randint(2, 16)) for _ in range(ncova)]
+        kinds = ['nug'] + ['sph'] * (ncova - 1) if rng.random() < .7 else ['sph'] * ncova
+        def gval(kind, r, h):
+            if kind == 'nug': return Fraction(1)
+            t = min(Fraction(1), h / r); return (3 * t - t ** 3) / 2
+        ge = [[[dy(Fraction(round(gval(kinds[ic], rngs[ic], hs[ip]) * 256), 256)) for ip in range(npadir)] for ij in range(nvs2)] for ic in range(ncova)]
+        A = [[[Fraction(rng.randint(-4, 4), 2) for _ in range(nvar)] for _ in range(nvar)] for _ in range(ncova)]
+        true = [[[sum(A[ic][a][k] * A[ic][b][k] for k in range(nvar)) for b in range(nvar)] for a in range(nvar)] for ic in range(ncova)]
+        pairs = [(a, b) for a in range(nvar) for b in range(a + 1)]
+        gg = []; wt = []
+        for ij, (a, b) in enumerate(pairs):
+            row = []; wrow = []
+            for ip in range(npadir):
+                v = sum(true[ic][a][b] * undy(ge[ic][ij][ip]) for ic in range(ncova)) + Fraction(rng.randint(-24, 24), 16)
+                row.append(dy(Fraction(round(v * 64), 64)))
+                wrow.append([] if rng.random() < .1 and ip > 1 else dy(Fraction(rng.randint(1, 40), 8)))
+            gg.append(row); wt.append(wrow)
+        sill0 = [[[dy(1 if a == b else 0) for b in range(nvar)] for a in range(nvar)] for ic in range(ncova)]
+        maxiter = rng.choice([0, 1, 2, 5, 30, 100]); tolred = dy(Fraction(1, 2 ** rng.choice([10, 20, 20, 30])))
+        icases.append([2, i % 2, nvar, ncova, npadir, maxiter, tolred, wt, gg, ge, sill0])
+        ctx.dist('goulard_nvar%d_ncova%d_maxiter%d' % (nvar, ncova, maxiter))
+    def mk(c, ii):
+        status, sills, crit, rec, records = ii
+        if not rec: return None
+        eigs = []
+        for r in records:
+            nv = int(undy(r[2]))
+            val = r[6 + nv * nv:6 + nv * nv + nv]; vec = r[6 + nv * nv + nv:6 + 2 * nv * nv + nv]
+            eigs.append([val, [vec[k * nv:(k + 1) * nv] for k in range(nv)]])
+        return [2] + c[2:] + [eigs]
+    res = both(ctx, exe, runner, 'goulard', icases, mk)
+    for c, ii, mc, mi in res:
+        fn = 'AModelOptimSills::_goulardWithoutConstraint' if c[1] == 0 else 'st_goulard_without_constraint'
+        ctx.count(sx_str(c))
+        if crashed(ii):
+            ctx.found_input = True; ctx.violation('crash:' + fn, 'no answer (crash or exception)', {'case': sx_str(c)}); continue
+        status, sills, crit, rec, records = ii
+        nvar, ncova, maxiter = c[2], c[3], c[5]
+        S = [unmat(m) for m in sills]
+        spec_ok = status != 0 or all(all(v is not None for r in M for v in r) and sym_defect(M) == 0 and is_psd_exact(M) for M in S)
+        if mi is None: continue
+        if mi[0] == 3:
+            ctx.cov['tie_excluded'] += 1
+            if not spec_ok:
+                ctx.found_input = True; ctx.violation(fn + ':pair-without-weighted-lag:sill-not-psd', 'a pair of variables without weighted lag: sills %s' % sx_str(sills)[:200], {'case': sx_str(c), 'impl': sx_str(ii)[:3000]})
+            continue
+        if mi[0] == 0:
+            # the model asked for more eigen-pairs than impl produced (or computeEigen failed): iteration counts differ
+            agree = (status != 0); tie = True
+        else:
+            _, msills, mcrits, mcalls = mi
+            crits = [unq(x) for x in mcrits][::-1]
+            tol = undy(c[6]); tie = False
+            for t in range(1, len(crits)):
+                ct, cp = crits[t], crits[t - 1]
+                for a in (abs(ct), (abs(ct - cp) / abs(ct)) if ct != 0 else None):
+                    if a is not None and abs(a - tol) <= Fraction(1, 10**6) * tol: tie = True
+            mS = [unmat(m, unq) for m in msills]
+            sc = max([abs(x) for M in mS for r in M for x in r] + [Fraction(1)])
+            agree = status == 0 and mcalls == len(records) and all(close_mat(a, b, 1e-7, sc) for a, b in zip(S, mS)) and close_o(undy(crit), crits[-1], 1e-6)
+        if not spec_ok:
+            ctx.ndis += 1; ctx.found_input = True
+            ctx.violation(fn + ':sill-not-psd', '%s returns a sill matrix that is not symmetric PSD: %s' % (fn, sx_str(sills)[:300]), {'case': sx_str(c), 'impl': sx_str(ii)[:3000]})
+        elif not agree:
+            if tie: ctx.cov['tie_excluded'] += 1; continue
+            ctx.ndis += 1
+            ctx.violation('model-drift:' + fn, 'the replay of the Goulard loop with the recorded eigen-pairs differs from impl (sills still PSD): iterations impl %d model %s' % (len(records), mi[3] if mi[0] == 1 else '?'),
+                          {'case': sx_str(c), 'impl': sx_str(ii)[:3000], 'model': sx_str(mi)[:3000], 'correspondence': 'coq/C17/Model.v goulard vs ' + fn}, found_input=False)
+
 # ----------------------------------------------------------------------------- stage 3: post-condition oracle on the fitting entry points
 PATHS = {0: 'Model::fit', 1: 'Model::fitFromVMap', 2: 'ModelOptimSillsVario::fit', 3: 'ModelOptimVario::fit'}
 FITTYPES = [0, 1, 2, 3, 4, 6, 10, 11, 19]
@@ -612,7 +693,7 @@ def fit_combo(c):
     d = DESCR.get(c[13])
     return '%s:%s:%s' % (PATHS[path], 'mono' if nvar == 1 else 'multi', 'goulard' if opts[1] else 'no-goulard') + \
            (':constant-sill' if cons_sill != [] else '') + (':intrinsic' if opts[9] else '') + \
-           (':pair-without-valid-lag' if d and any(v == 0 for v in d[0]) else ':empty-lag' if d and d[2] > 0 and path in (2, 3) else '')
+           (':pair-without-valid-lag' if d and path != 1 and any(v == 0 for v in d[0]) else '')
 
 def ang_eq(a, b, tol=1e-7):
     d = (float(a) - float(b)) % 360.0
@@ -623,14 +704,20 @@ def check_fit_result(ctx, c, ii):
     path, ndim, nvar, types, opts, mauto, items, cons_sill = c[1], c[2], c[3], c[7], c[8], c[9], c[10], c[11]
     combo = fit_combo(c)
     out = []
-    if ii is None: return [('%s:crash' % combo, 'the process died (abort / segmentation fault) during the fit')]
-    if ii == 'timeout': return [('%s:no-termination' % combo, 'the fit did not terminate within the time limit')]
-    if len(ii) == 2 and ii[0] == -997: return [('%s:exception' % combo, 'uncaught exception outside the fit call')]
+    d = DESCR.get(c[13])
+    def fatal(kind):
+        # key of a crash / exception: the part of the configuration that selects the failing code
+        if path in (2, 3) and d and d[2] > 0: return '%s:empty-lag:crash' % PATHS[path]      # heap corruption: crash or bad_alloc-like exception
+        if opts[9] and kind == 'crash': return '%s:intrinsic:crash' % PATHS[path]
+        return '%s:%s:%s:%s' % (PATHS[path], 'mono' if nvar == 1 else 'multi', 'goulard' if opts[1] else 'no-goulard', kind)
+    if ii is None: return [(fatal('crash'), 'the process died (abort / segmentation fault / heap corruption) during the fit')]
+    if ii == 'timeout': return [(fatal('no-termination'), 'the fit did not terminate within the time limit')]
+    if len(ii) == 2 and ii[0] == -997: return [(fatal('exception'), 'uncaught exception outside the fit call')]
     if len(ii) == 1: ctx.dist('fit_no_experimental_variogram'); return []
     status, structs, refang, refcanon, hmax, post, trace, exc, ms = ii
     ctx.fit_ms.append((ms, fit_combo(c), c[9][0]))
     exc_s = ''.join(chr(x) for x in exc)
-    if status == -98: return [('%s:exception' % combo, 'the fit threw: %s' % exc_s)]
+    if status == -98: return [(fatal('exception'), 'the fit threw an exception instead of reporting failure: %s' % exc_s)]
     if status == -5: return []
     if status != 0:
         ctx.dist('fit_failure_reported'); return []
@@ -677,8 +764,9 @@ def check_fit_result(ctx, c, ii):
         else:
             bad = ('lo' in sides and g < v - t) or ('up' in sides and g > v + t)
         if bad:
-            out.append(('%s:constraint-%s-%s%s%s:not-satisfied' % (PATHS[path], ELEM[elem], CASE[case], (':goulard' if opts[1] else ':no-goulard') if elem == E_SILL else '',
-                                                                   ':after-reduction' if len(S) < len(types) else ''),
+            key = '%s:constraint:after-reduction:not-satisfied' % PATHS[path] if len(S) < len(types) else \
+                  ('%s:constraint-sill:%s:not-satisfied' % (PATHS[path], 'goulard' if opts[1] else 'no-goulard') if elem == E_SILL else '%s:constraint-%s-%s:not-satisfied' % (PATHS[path], ELEM[elem], CASE[case]))
+            out.append((key,
                         'structure %d (type %d): %s[%d] = %r, user constraint %s %r' % (icov, st['type'], ELEM[elem], iv1, g, CASE[case], v)))
     # P4 options (Model::fit / fitFromVMap)
     if not opts[2] and path in (0, 1):
@@ -741,8 +829,13 @@ def check_fit_trace(ctx, c, ii, mcases, mmeta):
         npar = int(undy(r[2])); ids = [int(undy(x)) for x in r[3:3 + npar]]
         lower = [undy(x) for x in r[3 + 2 * npar:3 + 3 * npar]]; upper = [undy(x) for x in r[3 + 3 * npar:3 + 4 * npar]]
         mono_sqrt = c[3] == 1 and c[8][1]     # Goulard on + sill constraints: values replaced by their square roots
+        seen_sides = set()
         for it in c[10]:
             if it[5] == T_DEFAULT: continue
+            ident = (it[0], it[1], it[2], it[3], it[4] if it[2] == E_SILL else 0)
+            sd = [x for x in (('lo', 'up') if it[5] == T_EQUAL else ('lo',) if it[5] == T_LOWER else ('up',)) if (ident, x) not in seen_sides]
+            for x in ('lo', 'up') if it[5] == T_EQUAL else ('lo',) if it[5] == T_LOWER else ('up',): seen_sides.add((ident, x))
+            if not sd: continue          # constraints_get: the first item designating a parameter decides
             v = undy(it[6])
             if it[2] == E_SILL:
                 if not mono_sqrt or v < 0: continue
@@ -751,9 +844,9 @@ def check_fit_trace(ctx, c, ii, mcases, mmeta):
                 pd = parid_dec(pid)
                 if not (pd[0] == it[0] and pd[1] == it[1] and pd[2] == it[2] and pd[3] == it[3] and (pd[2] != E_SILL or pd[4] == it[4])): continue
                 t = Fraction(1, 10**9) * (1 + abs(v))
-                if it[5] in (T_LOWER, T_EQUAL) and (lower[k] is None or lower[k] < v - t):
+                if 'lo' in sd and (lower[k] is None or lower[k] < v - t):
                     out.append(('constraints:%s:lower-bound-not-on-designated-parameter' % ELEM[it[2]], 'in %s: parameter %s has lower bound %s, user asked %s' % (PATHS[c[1]], pd, fl(lower[k]), fl(v))))
-                if it[5] in (T_UPPER, T_EQUAL) and (upper[k] is None or upper[k] > v + t):
+                if 'up' in sd and (upper[k] is None or upper[k] > v + t):
                     out.append(('constraints:%s:upper-bound-not-on-designated-parameter' % ELEM[it[2]], 'in %s: parameter %s has upper bound %s, user asked %s' % (PATHS[c[1]], pd, fl(upper[k]), fl(v))))
     return out
 
@@ -855,13 +948,20 @@ def directed_fit_cases():
     add(2, 1, p1, dirs2(2), [0, 2], O(), edits=[[0, 2, D(0)]])                                # an empty lag
     add(3, 1, p1, dirs2(2), [2], O())
     add(3, 1, p1, dirs2(2), [2], O(), edits=[[1, 1, D(0)]])
+    add(2, 2, p2, dirs2(2), [0, 2], O(intrinsic=1))
+    add(3, 2, p2, dirs2(2), [2], O(intrinsic=1))
+    add(0, 2, ph, dirs2(2), [0, 2], O(), cons=D(2), maxiter=50)
+    add(0, 2, p2, dirs2(2), [0, 2], O(), cons=D(2), maxiter=0)
+    add(2, 2, p2, dirs2(2), [0, 2], O(), cons=D(2), maxiter=50)
     # variogram map on a 10 x 10 grid
     vals = [[D(Fraction(round((math.sin(i / 3.) + math.cos(j / 2.) + 0.3 * rng.gauss(0, 1)) * 64), 64))] for j in range(10) for i in range(10)]
     out.append([10, 1, 2, 1, [10, 10, vals, 4], [], [], [0, 2], O(), [50, 2], [], [], 1, 0])
     out.append([10, 1, 2, 1, [10, 10, vals, 4], [], [], [0, 2], O(aniso=0), [50, 2], [], [], 1, 0])
     out.append([10, 1, 2, 1, [10, 10, vals, 4], [], [], [0, 2], O(rot=0), [50, 2], [], [], 1, 0])
     out.append([10, 1, 2, 1, [10, 10, vals, 4], [], [], [0, 2], O(), [50, 2], [[0, 1, E_RANGE, 0, 0, T_UPPER, D(3)]], [], 1, 0])
+    out.append([10, 1, 2, 1, [10, 10, vals, 4], [], [], [0, 2], O(goulard=0), [50, 2], [[0, 1, E_SILL, 0, 0, T_UPPER, D(4)]], [], 1, 0])
     vals2 = [[v[0], D(Fraction(rng.randint(-64, 64), 64))] for v in vals]
+    out.append([10, 1, 2, 2, [10, 10, vals2, 4], [], [], [0, 2], O(goulard=0), [50, 2], [], [], 1, 0])
     out.append([10, 1, 2, 2, [10, 10, vals2, 4], [], [], [0, 2], O(), [50, 2], [], [], 1, 0])
     return out
 
@@ -900,12 +1000,35 @@ def run(ctx):
                          '(Goulard loop replay, in-situ truncation records, parameter vectors inside foxleg_f) are skipped' % REPO)
         ctx.log('NOTE: hooks/C17.patch is not applied: trace-level comparisons skipped')
     proofs_ok = coq_properties(ctx)
-    runner = build_runner(ctx); exe = build_c17_harness(ctx)
+    runner = build_runner(ctx); exe = build_c17_harness(ctx, ctx.hook)
     if runner is None or exe is None:
         print('ERROR: model runner or harness does not build'); sys.exit(3)
-    for name, fn in [('trunc', stage_trunc), ('params', stage_params), ('foxleg', stage_foxleg), ('ranges', stage_ranges), ('fit', stage_fit)]:
+    for name, fn in [('trunc', stage_trunc), ('params', stage_params), ('foxleg', stage_foxleg), ('ranges', stage_ranges), ('goulard', stage_goulard), ('fit', stage_fit)]:
         t = time.time(); fn(ctx, exe, runner, quick); ctx.log('%s: %.1fs, %d evaluations so far' % (name, time.time() - t, ctx.cov['evaluations']))
     ctx.cov['disagreements'] = ctx.ndis
+    ctx.level = 'proof of the projection / clamping steps, sampled post-conditions elsewhere'
+    ctx.cov['rule'] = ('cases: (a) symmetric matrices (1-4 variables: PSD, rank one, indefinite, slightly negative, correlation-like, zero) x truncation / definite-positive repair '
+                       'x class method / static function, eigen-pairs harvested from the library; (b) (dimension, directions, options, basic structures, constraint items, default values) '
+                       '-> effective options, parameter identifiers, default+user bounds, clamp; (c) step boxes, gradient evaluation points, st_check_param; (d) ranges written into the structures; '
+                       '(e) with the hook: complete unconstrained Goulard runs replayed with the recorded eigen-pairs; (f) fits: Model::fit, Model::fitFromVMap, ModelOptimSillsVario::fit, '
+                       'ModelOptimVario::fit on synthetic data sets (smooth / pure nugget / trend / anisotropic / constant; 1-3 variables, heterotopic; 1-4 directions; emptied lags; 5-120 samples), '
+                       '1-3 distinct basic structures, random options, maxiter in {0,1,5,20,50,100,1000}, constraint items, constant sill; every in-situ hook record of those fits. '
+                       'distinct = distinct case text; non-trivial = every case except structures not valid in the dimension, near-ties of the Goulard stopping test and of st_define_bounds (tie_excluded)')
+    ctx.assumptions = [
+        'the eigen-solver (MatrixSquareSymmetric::computeEigen) is an oracle: its output enters the model as data; C17_trunc_psd needs nothing of it, C17_trunc_id / C17_goulard_final_psd need exactness of the '
+        'decompositions in which no negative eigenvalue is reported (then the code keeps the matrix as it is); orthonormality is only used by the check to recognise "negative directions cut"',
+        'sqrt enters make_dp as an oracle (C17_makedp_psd holds for any function); the check evaluates it in binary64',
+        '_makeDefinitePositive is exercised on matrices whose constrained variables have a non-negative diagonal (what its callers produce); a negative one gives sqrt of a negative number',
+        'NOT covered by theorems: convergence / optimality of foxleg_f and of the Goulard iterations, the quadratic programme of foxleg_f (st_minimization_under_constraints: only its box is modelled, the step '
+        'actually taken is observed through the hook), the constrained Goulard (_goulardWithConstraints, _minimizeP4) beyond its final PSD repair, st_model_auto_strmod_reduce, tapering / second model / '
+        'anamorphosis variants of the parameter list, the nlopt optimiser of ModelOptimVario. These are sampled by the post-condition oracle only',
+        'post-conditions are judged on non-degenerate data for kriging (not every variable constant, distinct locations); bounds (not equalities) on angles are not judged (wrap-around); constraints on a '
+        'parameter that the user himself removed (range of rank >= 1 under isotropy, angle with locked rotation) are not judged; ModelOptim* classes have no code for constraint items / options: only sills, '
+        'ranges and usability are judged there',
+        'reals are compared with tolerance 1e-9 (1e-7 for complete Goulard runs); exact rational model vs binary64 implementation']
+    ctx.cov['trusted_base'] = ctx.cov.get('trusted_base', []) + [
+        'harness/C17.cpp compiles the current text of src/Core/model_auto.cpp and src/Core/foxleg.cpp into itself (namespaces) to reach their static functions',
+        'hooks/C17.patch (optional, add-only, guard GSTLEARN_VERIF): in-memory trace of truncations, parameter vectors and step boxes' + ('' if ctx.hook else ' - NOT present in this run')]
     if not proofs_ok: proof_break_violation(ctx, ctx.found_input)
 
 if __name__ == '__main__':
